@@ -168,6 +168,31 @@ def main():
             else:
                 a = build(b, datasets, func_adl, simplify_chained_calls,
                           change_extension_functions_to_calls)
+            if b.get("depths"):
+                # a long chain hashed with more or less stack left: running out of stack may
+                # make the hash unobtainable (RecursionError), it must never make it different
+                normal = sys.getrecursionlimit()
+
+                def at_depth(d):
+                    return calc_ast_hash(a) if d == 0 else at_depth(d - 1)
+
+                got = []
+                for d in b["depths"]:
+                    sys.setrecursionlimit(b.get("limit", 1000))
+                    try:
+                        got.append(at_depth(d))
+                    except RecursionError:
+                        got.append(None)
+                    finally:
+                        sys.setrecursionlimit(max(normal, 20000))
+                rec["depth_hashes"] = got
+                rec["stage"] = "after-hash"
+                rec["hash"] = next((h for h in got if h is not None), None)
+                rec["canon"] = json.dumps(canon(a), separators=(",", ":")) if rec["hash"] else None
+                rec["again"] = {}
+                sys.setrecursionlimit(normal)
+                out.append(rec)
+                continue
             rec["stage"] = "hash"
             h1 = calc_ast_hash(a)
             rec["stage"] = "after-hash"
@@ -217,6 +242,8 @@ def build(b, datasets, func_adl, simplify_chained_calls, fn_form):
 
     ds = datasets[b.get("dataset", 0) % len(datasets)]
     early = b.get("hash_early")
+    if b.get("repeat"):
+        b = dict(b, stages=list(b["stages"]) * b["repeat"])
     mode = b["mode"]
     stages = b["stages"]
     lam_stages = [(op, arg) for op, arg in stages if op in ("Select", "Where", "SelectMany")]
